@@ -48,7 +48,17 @@ class Layout:
         if isinstance(e, ast.BinOp) and isinstance(e.op, ast.Add) and self._is_bytes(e):
             return self.parts(e.left) + self.parts(e.right)
         if isinstance(e, ast.Constant) and isinstance(e.value, bytes):
+            if 0 < len(e.value) <= 8:
+                return [f"u8({b})" for b in e.value]        # a short literal is its bytes (bytes([0]) and b"\x00" are one thing)
             return [] if e.value == b"" else [f"const({e.value.hex()})"]
+        if isinstance(e, (ast.Name, ast.Attribute)):
+            # a module / class constant holding bytes
+            try:
+                okc, cv = self.fold(e)
+            except Exception:
+                okc, cv = False, None
+            if okc and isinstance(cv, bytes) and len(cv) <= 8:
+                return [f"u8({b})" for b in cv]
         if isinstance(e, ast.Call):
             f = e.func
             if isinstance(f, ast.Name) and f.id == "REPEAT" and len(e.args) == 1:
@@ -221,6 +231,13 @@ class Layout:
         for l in leaves:
             if isinstance(l, ast.Constant) and isinstance(l.value, bytes):
                 return True
+            if isinstance(l, (ast.Name, ast.Attribute)):
+                try:
+                    okc, cv = self.fold(l)
+                except Exception:
+                    okc, cv = False, None
+                if okc and isinstance(cv, bytes):
+                    return True
             if isinstance(l, ast.Call):
                 f = l.func
                 if isinstance(f, ast.Name) and f.id in ("bytes", "REPEAT"):
